@@ -6,9 +6,9 @@ import (
 )
 
 //verif:witness H_C02_routing routed rejected
-//verif:bound C02 quick real Refresh (toStorage, NewPlugin/inject via the reflect shim, tag-list parsing, duplicate detection, start-up, findLoggerForTag, rebinding): one registered tag of 2 (thorough: 2..3) one-byte segments (first byte a, others in {a,b}; optional leading underscore) plus the two built-in tags; two configured loggers each listing one pattern (literal or wildcard 'P_*'; for the first logger also two malformed star shapes; P of 1..2 one-byte segments over {a,b}, optional leading underscore), optional root logger; optionally a second registered tag one segment deeper or a sibling of the first (same parent, other last segment); every map iterated in insertion order or every map in reverse order (one choice per path)
+//verif:bound C02 quick real Refresh (toStorage, NewPlugin/inject via the reflect shim, tag-list parsing, duplicate detection, start-up, findLoggerForTag, rebinding): one registered tag of 2 (thorough: 2..3) one-byte segments (first byte a, others in {a,b}; optional leading underscore) plus the two built-in tags; two configured loggers each listing one pattern (literal or wildcard 'P_*'; for the first logger also two malformed star shapes and the empty-prefix wildcard '_*'; P of 1..2 one-byte segments over {a,b}, optional leading underscore), optional root logger; optionally a second registered tag one segment deeper or a sibling of the first (same parent, other last segment); every map iterated in insertion order or every map in reverse order (one choice per path)
 //verif:bound C02 thorough as quick with P of 1..3 segments
-//verif:assume C02 the wildcard with empty prefix ('_*') is excluded: the statement's 'proper underscore-delimited prefix' does not settle whether the empty prefix counts
+//verif:assume C02 the wildcard with an empty prefix ('_*', first logger only) is accepted and serves no tag: the empty string is not a prefix made of whole segments
 //verif:assume C02 tag and pattern bytes range over the small alphabets stated in the bounds (chosen so that collisions and prefix relations are frequent); other bytes are outside the bound
 
 func init() {
@@ -55,9 +55,11 @@ func vPattern(name string, maxSeg int, malformed bool) string {
 	}
 	nshape := 2
 	if malformed {
-		nshape = 4
+		nshape = 5
 	}
 	switch vChoose(name+"shape", nshape) {
+	case 4:
+		p = "_*" // accepted, but no tag has a proper prefix before its leading underscore: serves nothing
 	case 1:
 		p += "_*"
 	case 2:
